@@ -112,7 +112,7 @@ func vGenProposal(tier int, first bool, slice int) *Proposal {
 			if tier == 0 {
 				form = vr.IntOf(1, 2)
 			} else {
-				form = vr.IntOf(0, 1, 2, 4)
+				form = vr.IntOf(0, 1, 2, 3, 4)
 			}
 		} else {
 			// later transforms: transforms are marshalled grouped by type, so the wire order differs
